@@ -11,7 +11,8 @@ pub struct Counting;
 /// A single request of this size or more is never legitimate in a simulated run; the system allocator
 /// would refuse it and the process would abort (allocation failure does not unwind), so the trap
 /// registered by the runner reports it as a violation with a replay file instead.
-pub const HUGE: usize = 1 << 30;
+/// (rpgp's documented Argon2 ceiling is 2 GiB in one allocation, so the threshold sits above that.)
+pub const HUGE: usize = 1 << 32;
 static TRAP: std::sync::atomic::AtomicUsize = std::sync::atomic::AtomicUsize::new(0);
 
 pub fn set_trap(f: fn(usize)) {
